@@ -3322,6 +3322,10 @@ namespace bloch::runtime {
                 m_trackedCounts[key][outcome]++;
             }
         }
+        // Take the scope off the stack before its values die: dropping the last reference to an
+        // object runs its destructor, which opens scopes of its own, and that must not happen
+        // while the vector is still destroying this element in place.
+        auto dying = std::move(m_env.back());
         m_env.pop_back();
     }
 
